@@ -26,6 +26,14 @@ class CustomInit(Exception):
     self.code, self.detail, self.extra = code, detail, extra
 
 
+class TwoArg(Exception):
+  """`__init__` does not accept its own `.args` (one formatted message from two fields)."""
+
+  def __init__(self, field, problem):
+    super().__init__(f'{field}: {problem}')
+    self.field, self.problem = field, problem
+
+
 class StrOverride(ValueError):
   def __str__(self):
     return 'overridden message é中'
@@ -82,9 +90,14 @@ SHAPES = {
     'factory0': (lambda: FACT[0]('f0'), dict(is_exception=True, subclassable=True)),
     'factory1': (lambda: FACT[1]('f1'), dict(is_exception=True, subclassable=True)),
     'factory2': (lambda: FACT[2]('f2'), dict(is_exception=True, subclassable=True)),
+    # exception classes the interpreter itself treats specially inside generators / iteration
+    'stop_iteration': (lambda: StopIteration('exhausted'), dict(is_exception=True, subclassable=True)),
+    'stop_async': (lambda: StopAsyncIteration('async exhausted'), dict(is_exception=True, subclassable=True)),
+    'json_error': (lambda: __import__('json').JSONDecodeError('bad doc', 'x y', 1), dict(is_exception=True, subclassable=True)),
+    'two_arg_init': (lambda: TwoArg('field', 'problem'), dict(is_exception=True, subclassable=True)),
 }
 QUICK_SHAPES = ['plain', 'custom_init', 'str_override', 'base_exception', 'unsubclassable', 'factory0',
-                'factory1']
+                'factory1', 'stop_iteration', 'json_error', 'two_arg_init']
 
 
 def cases(tier, r):
